@@ -428,3 +428,8 @@ M("C16", "prefetch-last-appended", BLZ, "        eids_last = eids_last_next + ei
 M("C16", "prefetch-first-prepended", BLZ, "        eids_first = eids_first + eids_first_next", "        eids_first = eids_first_next + eids_first", "C16-R3")
 M("C05", "prefetch-last-appended", BLZ, "        eids_last = eids_last_next + eids_last\n        qids_last = qids_last_next + qids_last", "        eids_last = eids_last + eids_last_next\n        qids_last = qids_last + qids_last_next", "C05-R8")
 M("C06", "terminal-skips-unanticipated-zeroing", "frames.py", "        if self.start == self.simulation_end:", "        if self.start == self.end:", "C06-R5")
+FS = "fords/simulators.py"
+M("C07", "exogenized-targets-not-logged", FS, "        input_data_array[logly_indexes, :] = _np.log(input_data_array[logly_indexes, :])\n", "        pass\n", "C07-R4")
+M("C07", "exogenized-log-in-place", FS, "        input_data_array = input_data_array.copy()\n", "", "C07-R4")
+M("C07", "endogenized-writeback-row-major", FS, "        ___.T[incidence_v.T] += v_endogenized", "        ___[incidence_v] += v_endogenized", "C07-R4")
+M("C07", "endogenized-std-row-major", FS, "            std_v_endogenized = std_v_array.T[incidence_v.T, ]", "            std_v_endogenized = std_v_array[incidence_v, ]", "C07-R4")
